@@ -187,4 +187,73 @@ theorem lookup_filterMap_retain (p : Nat → Bool) (ck : Cookie) :
         simp only [lookup, hk, if_false]
         exact ih
 
+/-! ## the LRU list without eviction -/
+
+theorem lookup_filter_ne {α β} [DecidableEq α] {k k' : α} (hk : k ≠ k') :
+    ∀ l : List (α × β), lookup k (l.filter fun e => !decide (e.1 = k')) = lookup k l
+  | [] => rfl
+  | (a, b) :: t => by
+    by_cases ha : a = k'
+    · have hak : a ≠ k := fun h => hk (h ▸ ha)
+      simp only [List.filter, ha, decide_true, Bool.not_true, lookup]
+      rw [if_neg (by rw [← ha]; exact hak)]
+      exact lookup_filter_ne hk t
+    · simp only [List.filter, ha, decide_false, Bool.not_false, lookup]
+      rw [lookup_filter_ne hk t]
+
+/-- `LruCache::get` only reorders: every key still maps to the same set -/
+theorem lruGet_snd_lookup (cs : List (Cookie × List Nat)) (ck k : Cookie) :
+    lookup k (lruGet cs ck).2 = lookup k cs := by
+  unfold lruGet
+  cases hl : lookup ck cs with
+  | none => rfl
+  | some set =>
+    simp only
+    by_cases hk : k = ck
+    · subst hk
+      rw [hl]
+      apply lookup_append_new
+      intro e he; simpa using (List.mem_filter.1 he).2
+    · rw [lookup_append_old _ _ _ (fun h => hk h.symm), lookup_filter_ne hk]
+
+theorem lruGet_snd_length (cs : List (Cookie × List Nat)) (ck : Cookie) :
+    (lruGet cs ck).2.length ≤ cs.length := by
+  unfold lruGet
+  cases hl : lookup ck cs with
+  | none => exact Nat.le_refl _
+  | some set =>
+    simp only [List.length_append, List.length_cons, List.length_nil]
+    exact filter_length_lt_of_mem _ (lookup_some_mem hl) (by simp)
+
+theorem lruInsert_length (cap : Nat) (cs : List (Cookie × List Nat)) (ck : Cookie) (set : List Nat) :
+    (lruInsert cap cs ck set).length ≤ cs.length + 1 := by
+  simp only [lruInsert]
+  have := List.length_filter_le (fun e : Cookie × List Nat => !decide (e.1 = ck)) cs
+  split
+  · simp only [List.length_tail, List.length_append, List.length_cons, List.length_nil]; omega
+  · simp only [List.length_append, List.length_cons, List.length_nil]; omega
+
+/-- while the cache is not full nothing is evicted: every other key keeps its set -/
+theorem lruInsert_noevict (cap : Nat) (cs : List (Cookie × List Nat)) (ck k : Cookie) (set : List Nat)
+    (hroom : cs.length + 1 ≤ cap) (hk : k ≠ ck) :
+    lookup k (lruInsert cap cs ck set) = lookup k cs := by
+  simp only [lruInsert]
+  have := List.length_filter_le (fun e : Cookie × List Nat => !decide (e.1 = ck)) cs
+  rw [if_neg (by simp only [List.length_append, List.length_cons, List.length_nil]; omega)]
+  rw [lookup_append_old _ _ _ (fun h => hk h.symm), lookup_filter_ne hk]
+
+theorem lookup_append_single {α β} [DecidableEq α] {k k' : α} {v seen : β} :
+    ∀ {l : List (α × β)}, lookup k (l ++ [(k', v)]) = some seen →
+      lookup k l = some seen ∨ (lookup k l = none ∧ k' = k ∧ v = seen)
+  | [], h => by
+    simp only [List.nil_append, lookup] at h
+    split at h
+    · next hk => right; exact ⟨rfl, hk, Option.some.inj h⟩
+    · cases h
+  | (a, b) :: t, h => by
+    simp only [List.cons_append, lookup] at h ⊢
+    split
+    · next ha => rw [if_pos ha] at h; exact Or.inl h
+    · next ha => rw [if_neg ha] at h; exact lookup_append_single h
+
 end C51
